@@ -91,16 +91,20 @@ def nonzero(ix, amount, fs):
     if isinstance(na, tuple) and len(na) == 3 and na[0] == "sub":
         return (na[2], na[1]) in strict
     # |X| with a fact X != 0 in any spelling (is_zero, raw flag / magnitude, comparison with the signed zero)
+    signed_of = ix.inline(kids(a)[0]) if tag(a) == "field" and payload(a)[0] == "value" and kids(a) else None
     for (k_, x_, o_) in sign_tests(ix, list(fs)):
         if k_ == "is_zero" and o_ is False:
             nz = N(ix, x_)
             if nz == na or (isinstance(na, tuple) and len(na) == 2 and na[0] == "mag" and na[1] == nz):
                 return True
+            if signed_of is not None and (ix.inline(x_) == signed_of or N(ix, signed_of) == nz):
+                return True   # the amount is `X.value` and the path knows X != 0
     return False
 
 
-def nonzero_instances(ctx, em, rule, text, floor, chain_filter, consequence, select=None):
-    """select(amount value) -> bool: only emissions whose amount satisfies it are obligations (default: all)"""
+def nonzero_instances(ctx, em, rule, text, floor, chain_filter, consequence, select=None, facts_select=None, target_select=None):
+    """select(amount value) -> bool: only emissions whose amount satisfies it are obligations (default: all);
+    facts_select(path facts) -> bool: only emissions on paths whose facts satisfy it"""
     ix = ctx.ix
     ctx.rule(rule, text, floor)
     movers = movers_of(ctx)
@@ -123,6 +127,10 @@ def nonzero_instances(ctx, em, rule, text, floor, chain_filter, consequence, sel
                 if e.target.key in movers:
                     amt = args2[movers[e.target.key]]
                     if select is not None and not select(amt):
+                        continue
+                    if facts_select is not None and not facts_select(fs):
+                        continue
+                    if target_select is not None and not target_select(e.target, args2):
                         continue
                     out.append((chain + (short_fn(e.target).split("::")[-1],), amt, nonzero(ix, amt, fs), None))
                 elif depth > 0 and model.constructs_submsg(ix, e.target):
